@@ -212,6 +212,10 @@ func c01Publish(vd *Verdict, t *sessTrack, sv *SessView, i int, p refsn.Pkt) {
 		}
 		return
 	}
+	if refmqtt.TopicNameRule(name) != "" {
+		// the id denotes a string that is no MQTT topic name: refusing it is right, forwarding it is C24's business
+		return
+	}
 	if len(fwd) == 0 {
 		if died || dontCare {
 			return
@@ -292,7 +296,8 @@ func oracleC03(v *View, vd *Verdict) {
 					} else {
 						name, how = t.resolve(p.TIT, p.TopicID)
 					}
-					if how != "yes" {
+					if how != "yes" || refmqtt.FilterRule(name) != "" {
+						// (a short or predefined id may denote a string that is no MQTT topic filter)
 						skip = true
 						break
 					}
